@@ -18,7 +18,9 @@ from sievelib import parser as sl_parser  # noqa: E402
 
 try:
     import icontract  # type: ignore
-    HAVE_ICONTRACT = True
+    # under `python -O` icontract turns its decorators into no-ops (enabled=__debug__): the
+    # built-in wrappers below evaluate the very same condition functions instead
+    HAVE_ICONTRACT = bool(__debug__)
 except Exception:  # pragma: no cover
     icontract = None
     HAVE_ICONTRACT = False
